@@ -593,7 +593,9 @@ def canon_effect(eff: Effect, var_names: Set[str]) -> Dict[str, object]:
         sense = eff.args.get("sense")
         s = "min" if sense is None or (isinstance(sense, ast.Constant) and str(sense.value).startswith("min")) else (
             "max" if isinstance(sense, ast.Constant) else norm(sense))
-        out["nf"] = nz.nf(canon(eff.args["expr"]), rel_override=f"obj-{s}").key()
+        o = nz.nf(canon(eff.args["expr"]), rel_override=f"obj-{s}")
+        out["nf"] = o.key()
+        out["_nf"] = o
     elif eff.kind == "add_variables":
         out["family"] = eff.target
         for k in ("indexes", "lb", "ub", "var_type"):
